@@ -15,7 +15,7 @@ def rw_formats():
     return [f for f in readers.read._reader_map if f in writers.write._writer_map]
 
 
-def same_data(src, back):
+def same_data(src, back, positional=False):
     """None when the read-back holds exactly the source's elements, functions (exact values), ECPs and electron counts;
     otherwise (fingerprint, description)"""
     se, be = src['elements'], back['elements']
@@ -42,12 +42,14 @@ def same_data(src, back):
             lost = a - b
             ls = sorted({f[0] for f in lost})
             fp = 'functions'
+            have = {l for sh in se[z].get('electron_shells', []) for l in sh['angular_momentum']}
             if lost and not (b - a):
                 fp = 'functions-lost:l>=%d' % min(ls) if min(ls) >= 7 else 'functions-lost'
+            elif positional and have != set(range(max(have) + 1)):
+                fp = 'functions-altered:am-gap'       # formats that list the momenta by position (dalton), whatever the momenta
             elif lost and min(ls) >= 7:
                 fp = 'functions-altered:l>=%d' % min(ls)
-            have = {l for sh in se[z].get('electron_shells', []) for l in sh['angular_momentum']}
-            if fp == 'functions' and have != set(range(max(have) + 1)):
+            elif have != set(range(max(have) + 1)):
                 fp = 'functions-altered:am-gap'
             return (fp, 'element %s: %d function(s) lost (l = %s), %d invented' % (z, len(lost), ls[:6], len(b - a)))
         ea, eb = oracle.ecp_canon(se[z]), oracle.ecp_canon(be[z])
@@ -81,7 +83,7 @@ def roundtrip(ctx, b, fmt, label, kind):
         else:
             ctx.dist['read-raises:' + fmt] += 1
         return w[1]
-    d = same_data(b, r[1])
+    d = same_data(b, r[1], positional=(fmt == 'dalton'))
     if d:
         ctx.violation(site, d[0], 'reading back the %s text silently changes the basis: %s' % (fmt, d[1]), replay)
     return w[1]
@@ -294,7 +296,7 @@ def g94_whole(ctx, b, label):
 def whole_shape(r):
     if r[0] != 'ok':
         return ('error', 'any')
-    return ('ok', [[int(z), {'electron_shells': el.get('electron_shells'), 'ecp_electrons': el.get('ecp_electrons'),
+    return ('ok', [[z, {'electron_shells': el.get('electron_shells'), 'ecp_electrons': el.get('ecp_electrons'),
                              'ecp_potentials': el.get('ecp_potentials')}] for z, el in r[1]['elements'].items()])
 
 
@@ -316,7 +318,7 @@ def model_shape(m, empty_as_none=True):
 def canon_whole(r):
     if r[0] != 'ok':
         return r
-    return ('ok', [[z, {'electron_shells': el['electron_shells'] or None, 'ecp_electrons': el['ecp_electrons'], 'ecp_potentials': el['ecp_potentials'] or None}]
+    return ('ok', [[int(z) if str(z).isdigit() else z, {'electron_shells': el['electron_shells'] or None, 'ecp_electrons': el['ecp_electrons'], 'ecp_potentials': el['ecp_potentials'] or None}]
                    for z, el in r[1]])
 
 
@@ -326,6 +328,8 @@ WHOLE_FORMATS = {
                   'tmecp_write', 'tmecp_read', lambda b: [b.get('role', 'orbital'), b['name']]),
     'gamess_us': (lambda manip, sort, x: sort.sort_basis(manip.uncontract_spdf(manip.uncontract_general(x, True), 1, False), False),
                   'gus_write_all', 'gus_read_all', lambda b: []),
+    'dalton': (lambda manip, sort, x: sort.sort_basis(manip.make_general(x, False, True), False),
+               'dal_write_all', 'dal_read_all', lambda b: [b['name']]),
 }
 
 
@@ -352,6 +356,36 @@ def whole_file(ctx, b, label, fmt):
             continue
         ctx.case((label, fmt + '-whole-read', variant), True, fmt + '-whole-read:' + variant)
         ctx.compare(rop, canon_whole(whole_shape(r)), canon_whole(norm_read(m)), dict(replay, variant=variant))
+
+
+def lmol_layout(ctx, b, label):
+    """the modelled libmol electron part (coq/Model/Libmol.v, Proofs/LibmolSpec.v); the basis name is part of the text"""
+    from basis_set_exchange import writers, readers, manip, sort
+    if ctx.model is None:
+        return
+    e = electron_only(b)
+    if not e['elements']:
+        return
+    w = impl.call(writers.write_formatted_basis_str, copy.deepcopy(e), 'libmol')
+    pb = impl.call(lambda x: sort.sort_basis(manip.make_general(x, False, True), True), copy.deepcopy(e))
+    if w[0] != 'ok' or pb[0] != 'ok' or len(w[1]) > 200000:
+        return
+    harm = 'cartesian' if 'gto_cartesian' in e['function_types'] else 'spherical'
+    els = [[int(z), el['electron_shells']] for z, el in pb[1]['elements'].items()]
+    replay = {'kind': 'libmol-layout', 'label': label, 'input': e if len(str(e)) < 15000 else None}
+    ctx.case((label, 'libmol-layout'), True, 'libmol-layout')
+    ctx.compare('lmol_write_electron', ('ok', w[1]), ctx.model.call('lmol_write_electron', harm, e['name'], els), replay)
+    for variant, lines in (('as-written', w[1].splitlines()), ('damaged', damage_lines(w[1].splitlines(), random.Random(len(w[1]) + 5)))):
+        r = impl.call(readers.read_formatted_basis_str, '\n'.join(lines) + '\n', 'libmol')
+        got = r
+        if r[0] == 'ok':
+            got = ('ok', [[int(z), el.get('electron_shells', [])] for z, el in r[1]['elements'].items()])
+        m = ctx.model.call('lmol_read_electron', lines)
+        if m[0] == 'error' and 'NotImpl' in str(m[1]):
+            ctx.dist['libmol-read:outside-modelled-fragment'] += 1
+            continue
+        ctx.case((label, 'libmol-read', variant), True, 'libmol-read:' + variant)
+        ctx.compare('lmol_read_electron', norm_read(got), norm_read(m), dict(replay, variant=variant))
 
 
 def norm_read(r):
@@ -440,6 +474,7 @@ def work_store(ctx, item):
     g94_whole(ctx, b, label)
     for wf in WHOLE_FORMATS:
         whole_file(ctx, b, label, wf)
+    lmol_layout(ctx, b, label)
     if rng.random() < (1.0 if ctx.thorough() else 0.4):
         file_and_convert(ctx, b, label, rng)
     ctx.sample({'store': label, 'formats': rw_formats()})
@@ -480,6 +515,7 @@ def work_generated(ctx, seed):
     g94_whole(ctx, b, 'gen:%d:%s' % (seed, kind))
     for wf in WHOLE_FORMATS:
         whole_file(ctx, b, 'gen:%d:%s' % (seed, kind), wf)
+    lmol_layout(ctx, b, 'gen:%d:%s' % (seed, kind))
     if seed % 5 == 0 and kind == 'plain':
         file_and_convert(ctx, b, 'gen:%d' % seed, rng)
 
